@@ -498,7 +498,7 @@ theorem renameNeighbors_lvls (pairs : List (Int × Int)) :
   rw [intPairs_map_lvl, List.all_eq_true]
   simp only [beq_iff_eq]
 
-/-- the body `_preimage_of` on arguments that pass its check, partners neighbours: the call of
+/-- the body `_preimage_of` on arguments that pass its check, the test `fused` holds: the call of
 `_image` -/
 theorem preimageBody_eq_imageF (m : Mgr) (hV : VarsBij m.tbl) (trans target : Int)
     (rn : List (Key × Key)) (qvars : List Key)
@@ -506,7 +506,7 @@ theorem preimageBody_eq_imageF (m : Mgr) (hV : VarsBij m.tbl) (trans target : In
     (hres : resolveRename m.tbl rn = pairs.map fun p => (Key.lvl p.1, Key.lvl p.2))
     (hne : pairs ≠ [] → 0 < m.nvars)
     (hov : ∀ p p', p ∈ pairs → p' ∈ pairs → p.2 ≠ p'.1)
-    (hadj : ∀ p, p ∈ pairs → (p.1 - p.2).natAbs = 1) :
+    (hf : preimageFused m.tbl (pairs.map fun p => (Key.lvl p.1, Key.lvl p.2)) target = .ok true) :
     preimageBody trans target rn qvars fa m =
       match imageF none (some pairs) [] [] q fa (2 * m.nvars + 4) trans target {} m with
       | (.error e, m2) => (.error (if e = .fuel then .runtime else e), m2)
@@ -515,32 +515,37 @@ theorem preimageBody_eq_imageF (m : Mgr) (hV : VarsBij m.tbl) (trans target : In
     (renameOverlap_lvls pairs).mpr hov
   have hav := assertValidRename_ok m hV (pairs.map fun p => (Key.lvl p.1, Key.lvl p.2))
     (fun h => hne (fun hp => h (by rw [hp]; rfl))) hov'
-  have hnb := (renameNeighbors_lvls pairs).mpr hadj
   unfold preimageBody
-  simp only [hq, hres, hav, hnb, if_true, intPairs_map_lvl, badKeys_map_lvl]
+  simp only [hq, hres, hav, hf, if_true, intPairs_map_lvl, badKeys_map_lvl]
   generalize imageF none (some pairs) [] [] q fa (2 * m.nvars + 4) trans target {} m = res
   rcases res with ⟨_ | ⟨_, _⟩, _⟩ <;> rfl
 
-/-- the body `_preimage_of` on arguments that pass its check, some partners NOT neighbours:
-rename, conjoin, quantify -/
+/-- the body `_preimage_of` on arguments that pass its check, the test `fused` fails (partners not
+neighbours, two keys with the same value, or the target depends on a value): rename, conjoin,
+quantify -/
 theorem preimageBody_eq_fallback (m : Mgr) (hV : VarsBij m.tbl) (trans target : Int)
     (rn : List (Key × Key)) (qvars : List Key)
     (fa : Bool) (q : List Nat) (hq : mapToLevelE m.tbl qvars = .ok q) (pairs : List (Int × Int))
     (hres : resolveRename m.tbl rn = pairs.map fun p => (Key.lvl p.1, Key.lvl p.2))
     (hne : pairs ≠ [] → 0 < m.nvars)
     (hov : ∀ p p', p ∈ pairs → p' ∈ pairs → p.2 ≠ p'.1)
-    (hadj : ¬ ∀ p, p ∈ pairs → (p.1 - p.2).natAbs = 1) :
+    (hf : preimageFused m.tbl (pairs.map fun p => (Key.lvl p.1, Key.lvl p.2)) target = .ok false) :
     preimageBody trans target rn qvars fa m =
       preimageFallback trans target (pairs.map fun p => (Key.lvl p.1, Key.lvl p.2)) q fa m := by
   have hov' : renameOverlap (pairs.map fun p => (Key.lvl p.1, Key.lvl p.2)) = false :=
     (renameOverlap_lvls pairs).mpr hov
   have hav := assertValidRename_ok m hV (pairs.map fun p => (Key.lvl p.1, Key.lvl p.2))
     (fun h => hne (fun hp => h (by rw [hp]; rfl))) hov'
-  have hnb : renameNeighbors (pairs.map fun p => (Key.lvl p.1, Key.lvl p.2)) = false := by
-    rw [← Bool.not_eq_true, renameNeighbors_lvls]
-    exact hadj
   unfold preimageBody
-  simp only [hq, hres, hav, hnb, Bool.false_eq_true, if_false]
+  simp only [hq, hres, hav, hf, Bool.false_eq_true, if_false]
+
+/-- the literal preconditions of `preimage`, by name: declared names, pairwise distinct keys, no
+key is a value.  Nothing about the order, the shape of the renaming, or the target. -/
+structure PreimagePreL (l : List (String × String)) (qs : List String) (t : Tbl) : Prop where
+  keys : (l.map (·.1)).Nodup
+  decl : ∀ p ∈ l, t.vars.contains p.1 = true ∧ t.vars.contains p.2 = true
+  qdecl : ∀ s ∈ qs, t.vars.contains s = true
+  noOverlap : ∀ p p', p ∈ l → p' ∈ l → p.2 ≠ p'.1
 
 /-- what `preimage` asks of its arguments by name: declared names, pairwise distinct keys, no
 key is a value, no two keys with the same value, the target independent of every value.  Nothing
@@ -554,6 +559,9 @@ structure PreimagePreN (target : Int) (l : List (String × String)) (qs : List S
   noOverlap : ∀ p p', p ∈ l → p' ∈ l → p.2 ≠ p'.1
   injective : ∀ p p', p ∈ l → p' ∈ l → p.2 = p'.2 → p.1 = p'.1
   indep : ∀ p ∈ l, ¬ dependsOnN t target p.2
+
+theorem PreimagePreN.toL {target : Int} {l : List (String × String)} {qs : List String} {t : Tbl}
+    (h : PreimagePreN target l qs t) : PreimagePreL l qs t := ⟨h.keys, h.decl, h.qdecl, h.noOverlap⟩
 
 /-- in the order of `t` every renamed variable is a neighbour of its partner -/
 def AdjN (t : Tbl) (l : List (String × String)) : Prop :=
@@ -571,7 +579,7 @@ recursion `_image`; otherwise rename, conjoin, quantify): the documented result 
 abort having only added nodes -/
 theorem preimageBody_out (m0 : Mgr) (hI0 : Inv m0) (hc : m0.ctx = true) (hO : OrderOK m0.tbl)
     (trans target : Int) (hu : m0.tbl.Mem trans) (hv : m0.tbl.Mem target) (fa : Bool)
-    (l : List (String × String)) (qs : List String) (hpre : PreimagePreN target l qs m0.tbl) :
+    (l : List (String × String)) (qs : List String) (hpre : PreimagePreL l qs m0.tbl) :
     Outcome m0 (fun r m1 => PreimageDoc fa qs l trans target m0.tbl r m1.tbl)
       (preimageBody trans target (l.map fun p => (Key.name p.1, Key.name p.2)) (qs.map Key.name)
         fa m0) := by
@@ -642,10 +650,18 @@ theorem preimageBody_out (m0 : Mgr) (hI0 : Inv m0) (hc : m0.ctx = true) (hO : Or
     intro i _ hi
     show τ (m0.tbl.nameOf (renOf pairs i)) = τ (renN l (m0.tbl.nameOf i))
     rw [← hpairs, nameOf_renOf hO l hpre.decl hi]
-  by_cases hadj : ∀ p, p ∈ pairs → (p.1 - p.2).natAbs = 1
-  · -- partners neighbours: the recursion `_image`
+  obtain ⟨fused, hfused⟩ := preimageFused_ok hI0.wf
+    (pairs.map fun p => (Key.lvl p.1, Key.lvl p.2)) target hv
+  cases fused with
+  | true =>
+    -- the fused recursion `_image`: partners neighbours, renaming injective, target independent
     rw [preimageBody_eq_imageF m0 hV trans target _ _ fa (qs.map (lvlOf m0.tbl))
-      (mapToLevelE_names m0.tbl qs hpre.qdecl) pairs hresv hne hov hadj]
+      (mapToLevelE_names m0.tbl qs hpre.qdecl) pairs hresv hne hov hfused]
+    obtain ⟨hadj, hinj, s, hs, hdis⟩ := preimageFused_true hfused
+    rw [intPairs_map_lvl] at hadj hinj hdis
+    obtain ⟨s', hs', _, hdep⟩ := supportLevels_spec' hI0.wf target hv
+    rw [hs] at hs'
+    cases hs'
     have hterm : (pairs.lookup (m0.nvars : Int)).getD (m0.nvars : Int) = (m0.nvars : Int) := by
       cases hl : pairs.lookup (m0.nvars : Int) with
       | none => rfl
@@ -661,21 +677,9 @@ theorem preimageBody_out (m0 : Mgr) (hI0 : Inv m0) (hc : m0.ctx = true) (hO : Or
         hterm, fun _ _ _ => rfl, fun _ _ => rfl⟩
     have hmono : True → MonoOn (renOf pairs) (fun j => InSupp m0.tbl target j) := by
       intro _
-      refine renOf_mono pairs _ (fun p hp => (hlv p hp).2.2.1) hadj ?_ ?_
-      · intro x x' hx hx' he
-        obtain ⟨p, hp, rfl⟩ := hmem x hx
-        obtain ⟨p', hp', rfl⟩ := hmem x' hx'
-        simp only at he
-        have h2 := lvlOf_inj hO (hpre.decl p hp).2 (hpre.decl p' hp').2 (by omega)
-        simp only
-        rw [hpre.injective p p' hp hp' h2]
-      · intro x hx j hj he
-        obtain ⟨p, hp, rfl⟩ := hmem x hx
-        simp only at he
-        have hdep : dependsOn m0.tbl target j := hj.dependsOn hI0.wf
-        have : lvlOf m0.tbl p.2 = j := by omega
-        rw [← this] at hdep
-        exact hpre.indep p hp ((dependsOnN_iff hW hO target hv _ (hpre.decl p hp).2).mpr hdep)
+      refine renOf_mono pairs _ (fun p hp => (hlv p hp).2.2.1) hadj hinj ?_
+      intro x hx j hj he
+      exact hdis x hx j he ((hdep j).mpr (hj.dependsOn hI0.wf))
     rcases (imageF_out none (some pairs) [] [] (qs.map (lvlOf m0.tbl)) fa id (renOf pairs)
       (fun j => InSupp m0.tbl target j) m0.nvars True hP hmono (2 * m0.nvars + 4) m0 trans
       target {} hI0 hq rfl hu hv (fun _ h => h) (IMemoC.empty _ _ _ _ _ _)
@@ -689,9 +693,10 @@ theorem preimageBody_out (m0 : Mgr) (hI0 : Inv m0) (hc : m0.ctx = true) (hO : Or
     intro a
     rw [hp.den trivial, imgSem_ext hs.ext hW hu hv]
     exact Iff.rfl
-  · -- some partners are not neighbours: rename, conjoin, quantify
+  | false =>
+    -- rename, conjoin, quantify
     rw [preimageBody_eq_fallback m0 hV trans target _ _ fa (qs.map (lvlOf m0.tbl))
-      (mapToLevelE_names m0.tbl qs hpre.qdecl) pairs hresv hne hov hadj]
+      (mapToLevelE_names m0.tbl qs hpre.qdecl) pairs hresv hne hov hfused]
     have hout := preimageFallback_out m0 hI0 hc trans target hu hv fa
       (pairs.map fun p => (Key.lvl p.1, Key.lvl p.2)) (qs.map (lvlOf m0.tbl))
       (badKeys_map_lvl pairs) (by rw [intPairs_map_lvl]; exact hlv)
@@ -703,6 +708,12 @@ theorem preimageBody_out (m0 : Mgr) (hI0 : Inv m0) (hc : m0.ctx = true) (hO : Or
         rfl)
     rw [intPairs_map_lvl] at hout
     exact hout.mono (fun r m1 hs hp => hname r m1 hs hp.1 hp.2)
+
+theorem PreimagePreL.bridge {ops : List Int} {l : List (String × String)} {qs : List String}
+    {t t' : Tbl} (hB : Bridge ops t t') (h : PreimagePreL l qs t) : PreimagePreL l qs t' := by
+  refine ⟨h.keys, fun p hp => ?_, fun s hs => ?_, h.noOverlap⟩
+  · rw [hB.names, hB.names]; exact h.decl p hp
+  · rw [hB.names]; exact h.qdecl s hs
 
 theorem PreimagePreN.bridge {trans target : Int} {l : List (String × String)} {qs : List String}
     {t t' : Tbl} (hB : Bridge [trans, target] t t') (h : PreimagePreN target l qs t) :
@@ -723,17 +734,18 @@ theorem preimage_names_eq {t : Tbl} (m : Mgr) (hm : m.tbl = t) (hO : OrderOK t) 
   unfold preimage
   rw [qvarsByName_names hO qs hqd, renameByName_names hO l hkeys hd]
 
-/-- C09 for `preimage`: operands held by the user, renaming and quantified variables given by
-declared names.  Whether or not a reordering request is served, and whatever sifting does to the
-partners, the result is the documented preimage relative to the operands as they were. -/
-theorem preimage_transparent (ext : Nat → Nat) (hS : SiftContract ext) (m : Mgr)
+/-- C09 for `preimage` under its LITERAL preconditions (declared names, pairwise distinct keys, no
+key is a value — any order, any renaming, any target): operands held by the user.  Whether or not
+a reordering request is served, and whatever sifting does to the partners, the result is the
+documented preimage relative to the operands as they were. -/
+theorem preimage_literal_transparent (ext : Nat → Nat) (hS : SiftContract ext) (m : Mgr)
     (hD : DynInv ext m) (trans target : Int) (ht : HeldX ext trans) (hs : HeldX ext target)
     (fa : Bool) (l : List (String × String)) (qs : List String)
-    (hpre : PreimagePreN target l qs m.tbl) :
+    (hpre : PreimagePreL l qs m.tbl) :
     ∃ r m', preimage trans target (l.map fun p => (Key.name p.1, Key.name p.2)) (qs.map Key.name)
         fa m = (.ok r, m') ∧ DynPostG ext (PreimageDoc fa qs l trans target) m r m' := by
   rw [preimage_names_eq m rfl hD.order trans target fa l qs hpre.keys hpre.decl hpre.qdecl]
-  refine tryToReorder_transparent ext hS _ [trans, target] (PreimagePreN target l qs)
+  refine tryToReorder_transparent ext hS _ [trans, target] (PreimagePreL l qs)
     (PreimageDoc fa qs l trans target) ?_ ?_ ?_ m hD ?_ hpre
   · intro m0 hI0 hc hO hp hmem
     exact preimageBody_out m0 hI0 hc hO trans target (hmem trans (by simp))
@@ -751,5 +763,14 @@ theorem preimage_transparent (ext : Nat → Nat) (hS : SiftContract ext) (m : Mg
     rcases hw with rfl | rfl
     · exact ht
     · exact hs
+
+/-- C09 for `preimage` (the hypotheses of the earlier rounds, which include the literal ones) -/
+theorem preimage_transparent (ext : Nat → Nat) (hS : SiftContract ext) (m : Mgr)
+    (hD : DynInv ext m) (trans target : Int) (ht : HeldX ext trans) (hs : HeldX ext target)
+    (fa : Bool) (l : List (String × String)) (qs : List String)
+    (hpre : PreimagePreN target l qs m.tbl) :
+    ∃ r m', preimage trans target (l.map fun p => (Key.name p.1, Key.name p.2)) (qs.map Key.name)
+        fa m = (.ok r, m') ∧ DynPostG ext (PreimageDoc fa qs l trans target) m r m' :=
+  preimage_literal_transparent ext hS m hD trans target ht hs fa l qs hpre.toL
 
 end DD
